@@ -478,7 +478,8 @@ def check_negative_operand(ctx, tree, cls):
     from ..interp import Interp, Obj, Raised, Env
     te = next((m for m in cls.body if isinstance(m, ast.FunctionDef) and m.name == 'to_expression'), None)
     ctx.need(te is not None, 'to_expression not found')
-    methods = {'SqlalchemyRender': {m.name: m for m in cls.body if isinstance(m, ast.FunctionDef)}}
+    from ..interp import class_members
+    methods = {'SqlalchemyRender': class_members(cls)}
 
     class Elem:
         _interp_safe = True
